@@ -737,6 +737,16 @@ def validate_invariants(rep, mod, rule):
             probs.append('handles %s' % [c for c, t, p in ps.order if c.startswith('EXCEPT(')])
         # ending
         last = [(c, t) for c, t, p in ps.order if c == errors]
+        if not last and not exc and fact_cmp(ps, errors, 'None') is True:
+            # no list to collect into and no handler on the path: a failing
+            # invariant simply propagates (the same as re-raising it), and
+            # there is nothing to report at the end
+            if ps.kind == 'raise':
+                probs.append('raises without a list of errors')
+            if inner is not None:
+                reraised += 1
+            clean += 1
+            continue
         if not last:
             probs.append('a path ends without testing the collected errors')
             continue
